@@ -4574,4 +4574,24 @@ theorem combs_elem_len (S : ISeq) (k i : ℤ) :
   unfold ilen
   omega
 
+
+/-! # Twenty-second batch: `sqr` -/
+
+def sqr (t : ℤ) : ℤ := t * t
+
+/-- `sqr(t) >= 0` -/
+theorem sqr_nonneg (t : ℤ) : sqr t ≥ 0 := mul_self_nonneg t
+/-- `(sqr(t) == 0) == (t == 0)` -/
+theorem sqr_eq_zero_iff (t : ℤ) : sqr t = 0 ↔ t = 0 := by
+  unfold sqr; exact mul_self_eq_zero
+/-- `sqr(t) >= t` -/
+theorem sqr_ge_self (t : ℤ) : sqr t ≥ t := by
+  unfold sqr; nlinarith [mul_self_nonneg t, mul_self_nonneg (t - 1)]
+/-- `sqr(t) >= -t` -/
+theorem sqr_ge_neg (t : ℤ) : sqr t ≥ -t := by
+  unfold sqr; nlinarith [mul_self_nonneg t, mul_self_nonneg (t + 1)]
+/-- the four facts together -/
+theorem sqr_facts (t : ℤ) : sqr t ≥ 0 ∧ (sqr t = 0 ↔ t = 0) ∧ sqr t ≥ t ∧ sqr t ≥ -t :=
+  ⟨sqr_nonneg t, sqr_eq_zero_iff t, sqr_ge_self t, sqr_ge_neg t⟩
+
 end CnfSem
